@@ -132,20 +132,36 @@ static char errbuf[1200];
 static int in_child = 0;
 static size_t alloc_seq = 0, alloc_second = 0, alloc_cap = (size_t)256 << 20;
 static void wr(int fd, const char* s) { size_t n = strlen(s); while (n) { ssize_t k = write(fd, s, n); if (k <= 0) break; s += k; n -= k; } }
+#define CANARY 0xA5
+#if HAVE_LSAN
+#define NCANARY 0   /* let the sanitizer see the first byte past the end */
+#else
+#define NCANARY 64
+#endif
+static char* model_block = NULL;   // the block handed out for the model buffer of the load in progress
+static int canary_hit(const char* p) {
+  size_t n = *(const size_t*)p;
+  for (int i = 0; i < NCANARY; i++) if ((unsigned char)p[64 + n + i] != CANARY) return 1;
+  return 0;
+}
 static void on_error(const char* msg) {
   if (in_child) {
     char t[1400];
     snprintf(t, sizeof t, "%sfatal %s", !strcmp(stage, "load") ? "" : " ", msg);
+    for (char* c = t; *c; c++) if (*c == '\n' || *c == '\r') *c = ' ';
     // after the load stage the message is an oracle field
     if (!strcmp(stage, "load")) {
       char u[64];
       wr(fatal_fd, t);
+      if (model_block && canary_hit(model_block)) wr(fatal_fd, " canary=overwritten");
       if (alloc_seq >= 2) snprintf(u, sizeof u, " nbuf=%zu", alloc_second); else snprintf(u, sizeof u, " nbuf=-");
       wr(fatal_fd, u);
+      wr(fatal_fd, "\n");
     } else {
       snprintf(t, sizeof t, " %s=fatal:%s", stage, msg);
-      for (char* c = t + 1; *c; c++) if (*c == ' ') *c = '_';
+      for (char* c = t + 1; *c; c++) if (*c == ' ' || *c == '\n' || *c == '\r') *c = '_';
       wr(fatal_fd, t);
+      wr(fatal_fd, "\n");
     }
     _exit(0);
   }
@@ -158,12 +174,6 @@ static void on_error(const char* msg) {
 // the first byte past the end), preceded by a 64-byte header holding the size and followed by a
 // 64-byte canary that is checked on free: a write past the end of the model buffer is detected in
 // every build variant, not only under ASan.
-#define CANARY 0xA5
-#if HAVE_LSAN
-#define NCANARY 0   /* let the sanitizer see the first byte past the end */
-#else
-#define NCANARY 64
-#endif
 static void* cap_malloc(size_t n) {
   alloc_seq++;
   if (alloc_seq == 2) alloc_second = n;
@@ -172,17 +182,16 @@ static void* cap_malloc(size_t n) {
   if (posix_memalign(&p, 64, 64 + n + NCANARY)) return NULL;
   *(size_t*)p = n;
   memset((char*)p + 64 + n, CANARY, NCANARY);
+  if (alloc_seq == 2) model_block = (char*)p;
   return (char*)p + 64;
 }
 static void cap_free(void* q) {
   if (!q) return;
   char* p = (char*)q - 64;
-  size_t n = *(size_t*)p;
-  for (int i = 0; i < NCANARY; i++) {
-    if ((unsigned char)p[64 + n + i] != CANARY) {
-      if (in_child) { wr(fatal_fd, " canary=overwritten"); _exit(0); }
-      fprintf(stderr, "canary overwritten\n"); abort();
-    }
+  if (p == model_block) model_block = NULL;
+  if (canary_hit(p)) {
+    if (in_child) { wr(fatal_fd, " canary=overwritten\n"); _exit(0); }
+    fprintf(stderr, "canary overwritten\n"); abort();
   }
   free(p);
 }
@@ -261,7 +270,7 @@ static void check_rules(const mjModel* m, char* out, size_t outsz) {
   snprintf(out, outsz, "-");
 }
 
-static void on_alarm(int s) { (void)s; const char* t = " timeout"; wr(fatal_fd, t); _exit(0); }
+static void on_alarm(int s) { (void)s; const char* t = " timeout\n"; wr(fatal_fd, t); _exit(0); }
 
 static int hexval(int c) { if (c >= '0' && c <= '9') return c - '0'; if (c >= 'a' && c <= 'f') return c - 'a' + 10; return -1; }
 
@@ -336,7 +345,7 @@ static int child_load(const unsigned char* buf, int n, int fd, int with_oracle) 
   // exact-size private copy so that a sanitizer sees reads past the end
   unsigned char* priv = (unsigned char*)malloc(n > 0 ? (size_t)n : 1);
   if (n > 0) memcpy(priv, buf, (size_t)n);
-  alloc_seq = 0;
+  alloc_seq = 0; model_block = NULL;
   mjModel* m = mj_loadModelBuffer(priv, n);
   char nb[48];
   if (alloc_seq >= 2) snprintf(nb, sizeof nb, " nbuf=%zu", alloc_second); else snprintf(nb, sizeof nb, " nbuf=-");
